@@ -317,6 +317,33 @@ func TestWitnessC12(t *testing.T) {
 				ch <- res{r, string(b)}
 			}(i)
 		}
+		if c.Thorough() {
+			// coverage-guided native fuzzing of the same property (cannot be seeded: a found input is
+			// shrunk and replayed through the saved history)
+			procs++
+			go func() {
+				fdir := filepath.Join(dir, "fuzz")
+				_ = os.MkdirAll(fdir, 0o755)
+				// a second binary with the fuzzer's coverage instrumentation
+				fbin := filepath.Join(dir, "smfuzz.test")
+				br := pipe.Run(pipe.Cmd{Dir: filepath.Join(dir, "src"), Env: c.goEnv(), Timeout: 15 * time.Minute,
+					Args: []string{"go", "test", "-c", "-vet=off", "-fuzz", "FuzzVerifVarPool", "-o", fbin, "./internal/kessoku"}})
+				if br.Exit != 0 {
+					fbin = bin // fall back to fuzzing without coverage guidance
+				}
+				r := pipe.Run(pipe.Cmd{Dir: fdir, Env: c.goEnv(), Timeout: 10 * time.Minute,
+					Args: []string{fbin, "-test.run", "^$", "-test.fuzz", "^FuzzVerifVarPool$", "-test.fuzztime", "120s", "-test.fuzzcachedir", filepath.Join(fdir, "cache"), "-test.parallel", "8"}})
+				execs := ""
+				for _, l := range strings.Split(r.Stderr+"\n"+r.Stdout, "\n") {
+					if strings.Contains(l, "execs:") {
+						execs = strings.TrimSpace(l)
+					}
+				}
+				c.Rep.Extra["native_fuzz_last_status"] = execs
+				r.Stdout += "\n" + r.Stderr // failure messages of the fuzzer may be on either stream
+				ch <- res{r, ""}
+			}()
+		}
 		for i := 0; i < procs; i++ {
 			r := <-ch
 			lines := strings.Split(r.stats, "\n")
